@@ -26,7 +26,9 @@ SKEL = os.path.join(VERIF, "harness", "skel_c11")
 HEADER = ("From Coq Require Import NArith List Bool.\nFrom UPF Require Import Model.Agent Model.Locks Run.Eval_C11.\n"
           "Import ListNotations.\nOpen Scope N_scope.\n")
 MODS = {"pdrLookup": 0, "farLookup": 1, "appQERLookup": 2, "sessionQERLookup": 3}
-F22_FIELDS = ("UP4.meters", "UP4.ueAddrToFSEID", "UP4.fseidToUEAddr")
+# fields that UP4.tryConnect's re-initialisation rewrites under tryConnectMu only (C11_lockset_up4_reconnect_refuted)
+RECONNECT_FIELDS = ("UP4.appMeterCellIDsPool", "UP4.endMarkerChan", "UP4.p4RtTranslator", "UP4.p4client",
+                    "UP4.sessMeterCellIDsPool", "counter.counterIDsPool")
 ENBS = [l1.ip(192, 168, 200, k) for k in (1, 2, 3)]
 APP_SDFS = [("permit out udp from 8.8.8.8/32 53 to assigned", l1.ip(8, 8, 8, 8), l1.M32, 17, (53, 53)),
             ("permit out tcp from 1.2.3.4/32 443 to assigned", l1.ip(1, 2, 3, 4), l1.M32, 6, (443, 443)),
@@ -229,6 +231,15 @@ def build_scenario(rng, world, nconn, nsess, tag, pool="10.250.0.0/22", pause=60
     return {"tag": tag, "world": world, "input": inp, "meta": meta}
 
 
+def reconnect_scenario(rng, nconn, nsess, tag):
+    """UP4 loses its P4Runtime connection while requests are in flight (closed from the harness at a few random
+    instants); judged on race reports / aborts / hangs only"""
+    sc = build_scenario(rng, "up4", nconn, nsess, tag, pause=100)
+    sc["input"]["drop_conn_ms"] = sorted(rng.randrange(5, 500) for _ in range(8))
+    sc["judge"] = "races"
+    return sc
+
+
 def collision_history(rng):
     """F32 on the real code, sequentially: both associations' random sources yield the same draw"""
     cfg = l1.default_cfg()
@@ -339,8 +350,16 @@ def race_signatures(out, table):
             sig = "race:" + "+".join(sorted(fields))
         else:
             sig = "race:" + "+".join(sorted(set(funcs)))
-        sigs.append((sig, rep[:3000]))
+        sigs.append((sig, rep[:3000], [f.split(":", 1)[1] for f in funcs if not f.startswith("harness:")]))
     return sigs
+
+
+def reinit_functions(table):
+    """functions that only run inside UP4.tryConnect's re-connection (they inherit tryConnectMu from every caller, or all
+    their rows are in the reinit phase)"""
+    fs = {f for f, locks in (table or {}).get("entry_locks", {}).items() if "UP4.tryConnectMu" in locks}
+    fs |= {r["func"] for r in (table or {}).get("rows", []) if r["phase"] == "reinit"}
+    return fs
 
 
 def fatal_signature(out, table):
@@ -358,10 +377,6 @@ def fatal_signature(out, table):
     fields = pos.get((fr[0][1], fr[0][2]), set()) if fr else set()
     where = "+".join(sorted(fields)) if fields else (f"{fr[0][1]}:{fr[0][0]}" if fr else "?")
     return "fatal:" + what.replace(" ", "-") + ":" + where, ("fatal error: " + m.group(1) + "\n" + m.group(2))[:3000]
-
-
-F22_SIGS = {f"{k}:{f}" for k in ("race", "fatal:concurrent-map-access")
-            for f in ("UP4.meters", "UP4.ueAddrToFSEID", "UP4.fseidToUEAddr", "UP4.fseidToUEAddr+UP4.ueAddrToFSEID")}
 
 
 # ------------------------------------------------------------------------------------------------ monitors
@@ -478,7 +493,11 @@ def monitor(sc, res, table):
     o = res["obs"]
     world = sc["world"]
     text = res["out"]
-    for sig, rep in race_signatures(text, table):
+    reinit = reinit_functions(table)
+    for sig, rep, fns in race_signatures(text, table):
+        if sc.get("judge") == "races" and any(f in reinit for f in fns):
+            # one side of the report is the re-connection code itself (site), racing with a reader elsewhere (shape)
+            sig = "reconnect:race-with-reinitialisation"
         out.append((sig, "race detector: " + rep))
     ft = fatal_signature(text, table)
     if ft:
@@ -487,6 +506,13 @@ def monitor(sc, res, table):
         m = re.search(r"^panic: ([^\n]*)\n(.*)", text, re.M | re.S)
         fr = [f for f in frames(m.group(2)) if not f[1].startswith("zz_verif")]
         out.append(("panic:" + (f"{fr[0][1]}:{fr[0][0]}" if fr else "?"), "the agent process panicked: " + m.group(0)[:3000]))
+    if sc.get("judge") == "races":
+        # the datapath connection is cut on purpose: requests in flight fail, only memory safety is judged
+        if o is None and not out:
+            out.append(("no-observation", f"scenario process ended with status {res['rc']} without an observation: " + text[-2500:]))
+        if o and o.get("hung"):
+            out.append(("hung", o["hung"] + "\n" + o.get("goroutines", "")[:4000]))
+        return out
     if o is None:
         if not out:
             out.append(("no-observation", f"scenario process ended with status {res['rc']} without an observation: " + text[-2500:]))
@@ -667,6 +693,7 @@ def scenarios_for(rng, tier):
         scs.append(build_scenario(rng, "up4", n(4, 8), 5, "up4_a", pause=200))
         scs.append(build_scenario(rng, "up4", 2, 6, "up4_b", pause=50))
         scs.append(build_scenario(rng, "bess", n(3, 5), 3, "bess_small_pool", pool="10.250.0.0/26", pause=0))
+        scs.append(reconnect_scenario(rng, 6, 6, "up4_reconnect"))
     else:
         for i in range(40):
             scs.append(build_scenario(rng, "bess", n(2, 8), n(3, 8), f"bess_{i}", pause=rng.choice([0, 100, 600, 2000]),
@@ -675,6 +702,8 @@ def scenarios_for(rng, tier):
             scs.append(build_scenario(rng, "node", n(2, 8), n(3, 6), f"node_{i}", pause=rng.choice([0, 300, 1500])))
         for i in range(30):
             scs.append(build_scenario(rng, "up4", n(2, 8), n(3, 8), f"up4_{i}", pause=rng.choice([0, 100, 600])))
+        for i in range(6):
+            scs.append(reconnect_scenario(rng, n(3, 8), n(4, 8), f"up4_reconnect_{i}"))
     return scs
 
 
@@ -690,7 +719,7 @@ def run(tier, seed, replay=None):
     ck.assumptions = [
         "theorems are about the syntactic lock table and about interleavings of the model's atomic steps (datapath commands, allocator "
         "methods), not about the Go memory model",
-        "lock identity is per struct field, not per object instance; RLock counts as holding the lock",
+        "lock identity is per struct field, not per object instance; a lock held by RLock counts for reads only",
         "per-request order of the BESS plug-in's per-rule goroutines is covered by taking single commands as the atomic steps",
         "scenario streams stay inside the envelope: identifiers chosen by a control plane (uplink TEIDs, UE addresses) are distinct across "
         "associations; UP4 sessions are the shapes the UP4 plug-in supports (C04/C15 own the rest)",
@@ -709,9 +738,8 @@ def run(tier, seed, replay=None):
     rng = rng_for(seed, "C11")
     if not proved and table is not None:
         # search step: name the access pair that broke the discipline (only meaningful for the lockset obligations)
-        exp_run = set(F22_FIELDS) | {"upf.sliceInfo"}
-        exp_all = exp_run | {"UP4.appMeterCellIDsPool", "UP4.endMarkerChan", "UP4.p4RtTranslator", "UP4.p4client",
-                             "UP4.sessMeterCellIDsPool", "counter.counterIDsPool"}
+        exp_run = {"upf.sliceInfo"}            # written by the HTTP handler only (C19's object, not on the request path)
+        exp_all = exp_run | set(RECONNECT_FIELDS)
         bad_run = lockset_python([r for r in table["rows"] if r["phase"] != "reinit"])
         bad_all = lockset_python(table["rows"])
         new_bad = {f: bad_run[f] for f in bad_run if f not in exp_run}
@@ -736,24 +764,8 @@ def run(tier, seed, replay=None):
     results = [None] * len(scs)
 
     def job(i):
-        sc = scs[i]
-        tries = 3 if sc["world"] == "up4" else 1
-        seen_f22 = []
-        for t in range(tries):
-            r = run_scenario(binary, sc)
-            r["tries"] = t + 1
-            fails = monitor(sc, r, table)
-            other = [f for f in fails if f[0] not in F22_SIGS]
-            seen_f22 += [f for f in fails if f[0] in F22_SIGS]
-            r["fails"] = other
-            # F22 (unsynchronised UP4 maps) may abort the process or corrupt a map; what it produced is recorded, and the
-            # scenario is run again for a complete, uncorrupted run on which everything else is judged.  A failure that is not
-            # F22's persists across the repetitions.
-            if r["obs"] is not None and not other:
-                break
-            if not seen_f22:
-                break
-        r["fails"] = seen_f22 + r["fails"]
+        r = run_scenario(binary, scs[i])
+        r["fails"] = monitor(scs[i], r, table)       # every scenario is judged on its one and only run
         results[i] = r
     ths = [threading.Thread(target=job, args=(i,)) for i in range(len(scs))]
     par = 7
@@ -784,8 +796,8 @@ def run(tier, seed, replay=None):
             seen.add(sig)
             if sig.startswith("race:"):
                 dist["race_reports/" + sig[5:]] = dist.get("race_reports/" + sig[5:], 0) + 1
-            slim = {"tag": sc["tag"], "world": sc["world"], "input": sc["input"], "meta": [{k2: v for k2, v in m.items() if not k2.startswith("_")} for m in sc["meta"]]}
-            ck.fail(sig, f"[{sc['tag']}] {msg}"[:6000], {"scenario": slim, "exit_status": res["rc"], "tries": res.get("tries")})
+            slim = {"tag": sc["tag"], "world": sc["world"], "judge": sc.get("judge"), "input": sc["input"], "meta": [{k2: v for k2, v in m.items() if not k2.startswith("_")} for m in sc["meta"]]}
+            ck.fail(sig, f"[{sc['tag']}] {msg}"[:6000], {"scenario": slim, "exit_status": res["rc"]})
         ck.notes.setdefault("scenario_wall_s", {})[sc["tag"]] = res["wall"]
         if o and sc["world"] != "up4" and o.get("snaps") and len(o["snaps"]) == 3:
             terms, ncmd = coq_cases(sc, o) if len(cases) < 60 else ([], 0)
